@@ -21,7 +21,8 @@ def _issub(a, b):
     try:
         return type.__subclasscheck__(b, a) if type(b) is type else issubclass(a, b)
     except TypeError:
-        return False
+        # classes that refuse issubclass (typing.TypedDict classes): nominal subclassing is what the MRO says
+        return b in getattr(a, "__mro__", ())
 
 
 def member(v, rt, stats=None):
